@@ -205,3 +205,24 @@ Lemma unlocked_submit_loses_future :
   mgr unlocked_trace_state = Exited /\ broken unlocked_trace_state = Some TerminatedWorkerError /\
   futs unlocked_trace_state 1 = FPending /\ 1 < nfut unlocked_trace_state.
 Proof. vm_compute. repeat split; reflexivity || lia. Qed.
+
+(* ------------------------------------------- stale wait set (finding F28) *)
+Lemma manager_wake_watch_current : forall e, manager_wake_watch (procs e) e = manager_wake e.
+Proof. intros e. unfold manager_wake_watch, manager_wake, sentinel_ready. reflexivity. Qed.
+
+(* all workers retire (idle time-out), the next submit wakes the manager, which goes back to wait() before the
+   new workers exist (watch = []); a new worker takes the task and dies *)
+Definition stale_trace : list event :=
+  [Submit; Feed; ManagerWake; Feed; Take 0; Result 0 1; ManagerWake; Feed; Retire 0; Retire 1;
+   ManagerWake; Feed; ManagerWake; Feed;            (* _processes is empty, manager in wait() *)
+   Submit; ManagerWake; Feed;                       (* wake-up handled; sentinel list built before the spawn *)
+   Take 2; Die 2].
+
+Lemma stale_watch_refuted :
+  let e := run (new_exec 2 5 0) stale_trace in
+  reachable e /\ sees_only_sentinel e /\ futs e 1 = FRunning /\
+  manager_wake_watch [] e = e /\                                   (* the real manager: still blocked *)
+  broken (manager_wake e) = Some TerminatedWorkerError.            (* with the current process set: noticed *)
+Proof.
+  cbn zeta. split; [exists 2, 5, 0, stale_trace; reflexivity|]. vm_compute. repeat split; reflexivity.
+Qed.
